@@ -10,6 +10,7 @@ use std::path::{Path, PathBuf};
 use crate::backend::{IrCodegen, ProjectGenerator};
 use crate::format::{format_diff, format_source};
 use crate::frontend::ast::Program;
+use crate::frontend::module::{absolute_path, display_path};
 use crate::frontend::{diagnostics, lexer, parser, typechecker};
 use incan_core::lang::stdlib;
 
@@ -224,19 +225,28 @@ pub fn read_source(file_path: &str) -> CliResult<String> {
 /// validated and derives work through actual trait implementations.
 pub fn collect_modules(entry_path: &str) -> CliResult<Vec<ParsedModule>> {
     let path = Path::new(entry_path);
-    let base_dir = path.parent().unwrap_or(Path::new("."));
+    // Resolve imports against the absolute directory of the entry file, so that `..`/`super` imports and the
+    // project-root search for `crate::` also work when the entry is given relative to the current directory.
+    let absolute_entry = absolute_path(path);
+    let base_dir = absolute_entry.parent().unwrap_or(Path::new("."));
+    // Dependencies of a relative entry are still reported relative to the current directory.
+    let cwd = if path.is_absolute() {
+        None
+    } else {
+        std::env::current_dir().ok()
+    };
 
     let mut modules = Vec::new();
-    let mut processed = HashSet::new();
+    // Keyed by absolute path: the same file must not be loaded twice under two spellings.
+    let mut processed: HashSet<PathBuf> = HashSet::new();
     // (file_path, module_name, path_segments)
     let mut to_process: Vec<(String, String, Vec<String>)> =
         vec![(entry_path.to_string(), "main".to_string(), vec!["main".to_string()])];
 
     while let Some((file_path, module_name, path_segments)) = to_process.pop() {
-        if processed.contains(&file_path) {
+        if !processed.insert(absolute_path(Path::new(&file_path))) {
             continue;
         }
-        processed.insert(file_path.clone());
 
         let source = read_source(&file_path)?;
         let tokens = match lexer::lex(&source) {
@@ -335,9 +345,9 @@ pub fn collect_modules(entry_path: &str) -> CliResult<Vec<ParsedModule>> {
                     }
 
                     if let Some(path) = found_path {
-                        let dep_path_str = path.to_string_lossy().to_string();
+                        let dep_path_str = display_path(&path, cwd.as_deref());
                         let module_name = module_segments.join("_");
-                        if !processed.contains(&dep_path_str) {
+                        if !processed.contains(&absolute_path(&path)) {
                             to_process.push((dep_path_str, module_name, module_segments.clone()));
                         }
                     }
